@@ -14,6 +14,7 @@ macro_rules! proof {
         #[kani::proof]
         #[kani::stub(std::hash::RandomState::new, $crate::stubs::random_state_new)]
         #[kani::stub(std::vec::Vec::reserve, $crate::stubs::vec_reserve)]
+        #[kani::stub(std::vec::Vec::extend_from_slice, $crate::stubs::vec_extend_from_slice)]
         #[kani::stub(alloc::fmt::format, $crate::stubs::fmt_format)]
         #[kani::stub(rand::rngs::thread::rng, $crate::stubs::thread_rng)]
         #[kani::stub(<rand::rngs::ThreadRng as rand::RngCore>::next_u32, $crate::stubs::rng_next_u32)]
